@@ -194,8 +194,21 @@ def print_bdl(p, layout=None, want_doc=False):
                 if not w.get("noconsblock"):
                     P.block(consname, "CONSTRUCTION", [("TYPE", "LAYERS"), ("LAYERS", q(w["layers"])), ("ABSORPTANCE", w.get("abs", 0.6))])
                 for v in w.get("windows", []):
-                    P.block(v["name"], "WINDOW", [("X", v["x"]), ("Y", v["y"]), ("SETBACK", v.get("setback", 0)), ("HEIGHT", v["h"]), ("WIDTH", v["w"]),
-                                                  ("GAP", q(v["gap"]))])
+                    a = [("X", v["x"]), ("Y", v["y"]), ("SETBACK", v.get("setback", 0)), ("HEIGHT", v["h"]), ("WIDTH", v["w"]), ("GAP", q(v["gap"]))]
+                    if "coefs" in v:
+                        a.append(("COEFF", list(v["coefs"])))
+                    if "overhang" in v:
+                        o = v["overhang"]
+                        a += [("OVERHANG-A", o["a"]), ("OVERHANG-B", o["b"]), ("OVERHANG-W", o["w"]), ("OVERHANG-D", o["d"]), ("OVERHANG-ANGLE", o["angle"])]
+                    for side, key in (("LEFT", "lfin"), ("RIGHT", "rfin")):
+                        if key in v:
+                            f = v[key]
+                            a += [("%s-FIN-A" % side, f["a"]), ("%s-FIN-B" % side, f["b"]), ("%s-FIN-H" % side, f["h"]), ("%s-FIN-D" % side, f["d"])]
+                    if "louvres" in v:
+                        lv = v["louvres"]
+                        a += [("POSITION-LAMAS", q("Horizontal" if lv["horizontal"] else "Vertical")), ("LAMAS-WIDTH", lv["w"]), ("LAMAS-DISTANCE", lv["dist"]),
+                              ("LAMAS-ANGLE", lv["angle"]), ("LAMAS-TRANSMISIVITY", lv["tran"]), ("LAMAS-REFLECTIVITY", lv["refl"])]
+                    P.block(v["name"], "WINDOW", a)
     for s in p.get("shades", []):
         a = [("TRAN", 0), ("REFL", 0.7)]
         if "verts" in s:
@@ -260,6 +273,29 @@ def random_project(rng, nspaces=None, with_geometry_walls=False, space_offsets=F
     """a closed, convertible project: 1-3 spaces on one or two floors, walls on every edge, floor and roof
     from the outline, windows, shades, bridges, schedules and conditions"""
     p = base_library()
+    # library figures drawn per project (distinct values per attribute)
+    r3 = lambda lo, hi: round(rng.uniform(lo, hi), 3)
+    for m in p["materials"]:
+        if "lam" in m:
+            m["lam"], m["dens"] = r3(0.03, 2.5), float(rng.randint(20, 2500))
+            if rng.random() < 0.5:
+                m["cp"] = float(rng.randint(700, 1800))
+            if rng.random() < 0.5:
+                m["mu"] = float(rng.randint(1, 200))
+            if rng.random() < 0.5:
+                m["thick"] = r3(0.01, 0.4)
+        else:
+            m["r"] = r3(0.05, 0.5)
+    for g in p["glasses"]:
+        g["u"], g["sc"] = r3(0.8, 5.7), r3(0.2, 0.95)
+    for f in p["frames"]:
+        f["u"], f["abs"], f["width"] = r3(1.0, 5.9), r3(0.2, 0.95), r3(0.03, 0.19)
+    for g in p["gaps"]:
+        g["pct"], g["inf"] = float(rng.randint(5, 60)), float(rng.choice([3, 9, 27, 50, 100]))
+        if rng.random() < 0.6:
+            g["du"] = float(rng.randint(1, 30))
+        if rng.random() < 0.6:
+            g["tj"] = r3(0.05, 0.9)
     p["azimuth"] = rng.choice(azimuths) if azimuths else rng.choice([0, 0, 30, 90, 143.5, 200, 315])
     p["perim"] = rng.choice([None, [1.0, 1.5]])
     if p["perim"] is None:
@@ -291,10 +327,26 @@ def random_project(rng, nspaces=None, with_geometry_walls=False, space_offsets=F
                      "loc": "SPACE-V%d" % (vi + 1), "windows": []}
                 if kind == "INTERIOR-WALL":
                     w["intwalltype"] = rng.choice(["STANDARD", "ADIABATIC"])
+                if rng.random() < 0.5:
+                    w["abs"] = round(rng.uniform(0.2, 0.9), 2)
                 edge = ((verts[(vi + 1) % len(verts)][0] - verts[vi][0]) ** 2 + (verts[(vi + 1) % len(verts)][1] - verts[vi][1]) ** 2) ** 0.5
                 if kind == "EXTERIOR-WALL" and edge >= 3 and rng.random() < 0.6:
-                    w["windows"].append({"name": w["name"] + "_V1", "gap": "HuecoDoble", "x": 0.5, "y": 1.0, "w": rng.choice([1.0, 1.5, 2.0]), "h": rng.choice([1.0, 1.25]),
-                                         "setback": rng.choice([0, 0.2])})
+                    v = {"name": w["name"] + "_V1", "gap": "HuecoDoble", "x": 0.5, "y": 1.0, "w": rng.choice([1.0, 1.5, 2.0]), "h": rng.choice([1.0, 1.25]),
+                         "setback": rng.choice([0, 0.2])}
+                    # shading devices of the window: every figure different, so that a value read from the wrong attribute shows
+                    r2 = lambda lo, hi: round(rng.uniform(lo, hi), 2)
+                    if rng.random() < 0.5:
+                        v["overhang"] = {"a": r2(0.05, 0.4), "b": r2(0.45, 0.8), "w": rng.choice([0, r2(1.0, 2.5)]), "d": r2(0.3, 0.95), "angle": rng.choice([0, 15, 30])}
+                    if rng.random() < 0.5:
+                        v["lfin"] = {"a": r2(0.05, 0.3), "b": r2(0.31, 0.6), "h": r2(1.0, 2.0), "d": rng.choice([0, r2(0.2, 0.9)])}
+                    if rng.random() < 0.5:
+                        v["rfin"] = {"a": r2(0.05, 0.3), "b": r2(0.31, 0.6), "h": r2(1.0, 2.0), "d": r2(0.2, 0.9)}
+                    if rng.random() < 0.3:
+                        v["coefs"] = [r2(0.1, 1.0), r2(0.1, 1.0), r2(0.1, 1.0), r2(0.1, 1.0)]
+                    if rng.random() < 0.3:
+                        v["louvres"] = {"horizontal": rng.random() < 0.5, "w": rng.choice([0, r2(0.05, 0.3)]), "dist": r2(0.31, 0.5), "angle": rng.choice([0, 30, 45]),
+                                        "tran": r2(0.01, 0.2), "refl": r2(0.3, 0.8)}
+                    w["windows"].append(v)
                 sp["walls"].append(w)
             sp["walls"].append({"name": sp["name"] + "_Suelo", "kind": rng.choice(["UNDERGROUND-WALL", "EXTERIOR-WALL"]), "layers": "Forjado", "loc": "BOTTOM", "windows": []})
             sp["walls"].append({"name": sp["name"] + "_Techo", "kind": "ROOF", "layers": "Forjado", "loc": "TOP", "windows": []})
@@ -318,7 +370,9 @@ def random_project(rng, nspaces=None, with_geometry_walls=False, space_offsets=F
         else:
             x0 = rng.choice([-8.0, 25.0])
             p["shades"].append({"name": "Sombra%02d" % i, "verts": [[x0, -4, 0], [x0 + 6, -4, 0], [x0 + 6, -4, 5], [x0, -4, 5]]})
-    p["tbs"] = [{"name": "PT_frente_forjado", "ttl": 0.5, "frsi": 0.6, "long": rng.choice([0, 12.5, 40])}, {"name": "PT_hueco", "ttl": 0.3, "frsi": 0.7, "long": 8.0}]
+    p["tbs"] = [{"name": "PT_frente_forjado", "ttl": round(rng.uniform(0.05, 1.2), 2), "frsi": round(rng.uniform(0.4, 0.9), 2), "long": rng.choice([0, 12.5, 40])},
+                {"name": "PT_hueco", "ttl": round(rng.uniform(0.05, 1.2), 2), "frsi": round(rng.uniform(0.4, 0.9), 2), "long": 8.0},
+                {"name": "PT_sin_longitud", "ttl": 0.11, "frsi": 0.71}]
     return p
 
 
